@@ -180,6 +180,22 @@ func childPairs(a []string) {
 		deadline := time.Now().Add(time.Duration(job.Millis) * time.Millisecond)
 		var wg sync.WaitGroup
 		var calls int64
+		// a feeder keeps the store populated through its (locked) producer methods, so that deletions and
+		// iterations of the pair under test keep having something to do
+		wg.Add(1)
+		go func(gg *lib.Rng) {
+			defer wg.Done()
+			var prod []string
+			for _, m := range storeMethods(v) {
+				if strings.HasPrefix(m, "Submit") || m == "Add" || m == "Allow" || m == "Deny" {
+					prod = append(prod, m)
+				}
+			}
+			for len(prod) > 0 && time.Now().Before(deadline) {
+				callMethod(v, prod[gg.Intn(len(prod))], gg, codes)
+				time.Sleep(50 * time.Microsecond)
+			}
+		}(g.Fork())
 		for w := 0; w < job.Workers; w++ {
 			for _, name := range []string{p.A, p.B} {
 				wg.Add(1)
